@@ -4,6 +4,8 @@ pub mod c02;
 pub mod c03;
 pub mod c04;
 pub mod c12;
+pub mod c14;
+pub mod c20;
 
 use crate::engine::Engine;
 
@@ -14,6 +16,8 @@ pub fn lookup(id: &str) -> Option<(&'static str, fn(&Engine))> {
         "C03" => ("C03", c03::run),
         "C04" => ("C04", c04::run_prop),
         "C12" => ("C12", c12::run),
+        "C14" => ("C14", c14::run),
+        "C20" => ("C20", c20::run),
         _ => return None,
     })
 }
